@@ -455,5 +455,56 @@ theorem momenttransf_not_periodic_witness (hE : 0 < E) :
 example : valueOf (Gen.MomentTransf T 10 (-π) Slot.empty) ≠ valueOf (Gen.MomentTransf T 10 π Slot.empty) :=
   momenttransf_not_even_witness T _ _ (by norm_num)
 
+/-! ## Ranges: the bounds that hold at every angle -/
+
+/-- the magnitude of the momentum transfer never exceeds `E/hc` (reached at `θ = π`) -/
+theorem abs_MomentTransf_le (hE : 0 < E) :
+    |valueOf (Gen.MomentTransf T E θ error)| ≤ E / Hdr.KEV2ANGST := by
+  rw [value_MomentTransf T E θ error hE, valueOf_ok, momentV_real, abs_mul]
+  have h0 : 0 ≤ E / Hdr.KEV2ANGST := (div_pos hE KEV2ANGST_pos).le
+  rw [abs_of_nonneg h0]
+  have h1 : |sin (θ / 2)| ≤ 1 := abs_sin_le_one _
+  nlinarith
+
+theorem momenttransf_at_pi (hE : 0 < E) :
+    valueOf (Gen.MomentTransf T E π error) = E / Hdr.KEV2ANGST := by
+  rw [value_MomentTransf T E π error hE, valueOf_ok, momentV_real, sin_pi_div_two, mul_one]
+
+example : |valueOf (Gen.MomentTransf T 10 1 Slot.empty)| ≤ 10 / Hdr.KEV2ANGST :=
+  abs_MomentTransf_le T _ _ _ (by norm_num)
+
+/-- `MomentTransf` increases strictly with the scattering angle on `[-π, π]` (so on the physical range `[0, π]`) -/
+theorem momenttransf_strictMono (hE : 0 < E) :
+    StrictMonoOn (fun θ => valueOf (Gen.MomentTransf T E θ error)) (Set.Icc (-π) π) := by
+  simp only [fun θ => value_MomentTransf T E θ error hE, valueOf_ok, momentV_real]
+  intro a ha b hb hab
+  have hk : 0 < E / Hdr.KEV2ANGST := div_pos hE KEV2ANGST_pos
+  have hs : sin (a / 2) < sin (b / 2) :=
+    strictMonoOn_sin ⟨by linarith [ha.1], by linarith [ha.2]⟩ ⟨by linarith [hb.1], by linarith [hb.2]⟩
+      (by linarith)
+  exact mul_lt_mul_of_pos_left hs hk
+
+example : valueOf (Gen.MomentTransf T 10 1 Slot.empty) < valueOf (Gen.MomentTransf T 10 2 Slot.empty) :=
+  momenttransf_strictMono T 10 Slot.empty (by norm_num)
+    ⟨by linarith [pi_gt_three], by linarith [pi_gt_three]⟩ ⟨by linarith [pi_gt_three], by linarith [pi_gt_three]⟩
+    (by norm_num)
+
+/-- at every angle (not only on `[0, π]`) the scattered photon keeps at least the back-scatter energy
+`E / (1 + 2E/mc²)` -/
+theorem compton_energy_ge_backscatter (hE : 0 < E) :
+    E / (1 + 2 * E / Hdr.MEC2) ≤ valueOf (Gen.ComptonEnergy T E θ error) := by
+  rw [value_ComptonEnergy T E θ error hE, valueOf_ok, comptonV_real, div_eq_mul_inv]
+  have ha : 0 < E / Hdr.MEC2 := div_pos hE MEC2_pos
+  have hd : den E θ ≤ 1 + 2 * E / Hdr.MEC2 := by
+    unfold den
+    have : -1 ≤ cos θ := neg_one_le_cos θ
+    have e : 2 * E / Hdr.MEC2 = 2 * (E / Hdr.MEC2) := by ring
+    rw [e]; nlinarith
+  have hp := den_pos hE.le θ
+  exact mul_le_mul_of_nonneg_left (inv_anti₀ hp hd) hE.le
+
+example : 100 / (1 + 2 * 100 / Hdr.MEC2) ≤ valueOf (Gen.ComptonEnergy T 100 7 Slot.empty) :=
+  compton_energy_ge_backscatter T _ _ _ (by norm_num)
+
 end C12
 end Xrl
